@@ -318,14 +318,15 @@ class Check(object):
         return True
 
     def finish(self):
-        os.makedirs(os.path.join(ROOT, 'evidence'), exist_ok=True)
+        evdir = os.environ.get('VERIF_EVIDENCE_DIR') or os.path.join(ROOT, 'evidence')
+        os.makedirs(evdir, exist_ok=True)
         for key, h in sorted(self.known_hits.items()):
             f = h['finding']
             print('KNOWN-FINDING: property=%s %s (%d occurrences this run)' % (self.pid, f.get('description', key), h['count']))
         nviol = 0
         seen = set()
         if self.violations:
-            rdir = os.path.join(ROOT, 'replays', self.pid)
+            rdir = os.path.join(os.environ.get('VERIF_REPLAY_DIR') or os.path.join(ROOT, 'replays'), self.pid)
             os.makedirs(rdir, exist_ok=True)
             for sig, desc, replay in self.violations:
                 skey = json.dumps(sig, sort_keys=True)
@@ -369,7 +370,7 @@ class Check(object):
             'wall_s': round(time.time() - self.t0, 2),
             'violations': nviol,
         }
-        with open(os.path.join(ROOT, 'evidence', self.pid + '.json'), 'w') as f:
+        with open(os.path.join(evdir, self.pid + '.json'), 'w') as f:
             json.dump(ev, f, indent=1, default=str)
         if self.traces == 0 and nviol == 0:
             print('MACHINERY: no execution of the implementation was validated', file=sys.stderr)
